@@ -5,12 +5,12 @@ use crate::ops::*;
 use crate::runner::RunResult;
 use std::time::{Duration, Instant};
 
-fn fails_same(r: &Option<RunResult>, prop: &str, oracle: &str) -> bool {
-    r.as_ref().is_some_and(|r| r.harness_error.is_none() && r.violations.iter().any(|v| v.oracle == oracle && v.props.iter().any(|p| p == prop)))
+fn fails_same(r: &Option<RunResult>, prop: &str, oracle: &str, sig: &str) -> bool {
+    r.as_ref().is_some_and(|r| r.harness_error.is_none() && r.violations.iter().any(|v| v.oracle == oracle && v.sig == sig && v.props.iter().any(|p| p == prop)))
 }
 
 /// Returns the minimised scenario (with the explicit post step from the failing result).
-pub fn shrink(def: &CheckDef, start: &Scenario, prop: &str, oracle: &str, budget: Duration) -> Scenario {
+pub fn shrink(def: &CheckDef, start: &Scenario, prop: &str, oracle: &str, sig: &str, budget: Duration) -> Scenario {
     let t0 = Instant::now();
     let timeout = Duration::from_secs(150);
     let mut cur = start.clone();
@@ -37,7 +37,7 @@ pub fn shrink(def: &CheckDef, start: &Scenario, prop: &str, oracle: &str, budget
             let res = eval_many(def, &cands, timeout);
             let mut accepted = false;
             for (c, r) in cands.into_iter().zip(res.iter()) {
-                if fails_same(r, prop, oracle) {
+                if fails_same(r, prop, oracle, sig) {
                     // carry over the explicit post step the candidate run found
                     cur = r.as_ref().and_then(|r| r.repro.clone()).unwrap_or(c);
                     progress = true;
@@ -119,7 +119,7 @@ pub fn shrink(def: &CheckDef, start: &Scenario, prop: &str, oracle: &str, budget
         if !cands.is_empty() && t0.elapsed() < budget {
             let res = eval_many(def, &cands, timeout);
             for (c, r) in cands.into_iter().zip(res.iter()) {
-                if fails_same(r, prop, oracle) {
+                if fails_same(r, prop, oracle, sig) {
                     cur = r.as_ref().and_then(|r| r.repro.clone()).unwrap_or(c);
                     progress = true;
                     break;
